@@ -611,7 +611,8 @@ func (l *Lexer) followsAmountNumber(pos int) bool {
 	if p < 0 {
 		return false
 	}
-	return l.isDigit(l.input[p])
+	// the number may end in its decimal mark ("10.")
+	return l.isDigit(l.input[p]) || l.input[p] == '.' || l.input[p] == ','
 }
 
 func (l *Lexer) isAllUppercase(s string) bool {
